@@ -22,6 +22,17 @@ func (e *SpecEnv) applyOpaque(s *SpecFn, args []*Node) *SVal {
 	if len(args) != len(s.Params) {
 		sfail("opaque spec %s expects %d arguments", s.Name, len(s.Params))
 	}
+	// In the VC of a contract that reveals the function it is an ordinary (transparent) spec
+	// function: the whole VC then stays quantifier-free and failed obligations come with models.
+	if c := x.w.contracts[x.fnKey]; c != nil {
+		for _, r := range c.Reveal {
+			if r == s.Name {
+				t := *s
+				t.Opaque = false
+				return e.applySpec(&t, args)
+			}
+		}
+	}
 	var terms []string
 	for _, a := range args {
 		v := e.force(e.eval(a))
